@@ -7,6 +7,7 @@
 set -u
 t=$1; prop=$2; scen=$3; runs=${4:-1000000}; seed=${5:-${VERIF_SEED:-1}}
 root=/verif
+[ -f $root/fuzz/Cargo.lock ] || cp /repo/Cargo.lock $root/fuzz/Cargo.lock
 cd $root/harness || exit 2
 export RUSTFLAGS="--cfg rustdds_verif" CARGO_NET_OFFLINE=true VERIF_ROOT=$root
 cargo +nightly fuzz build --fuzz-dir $root/fuzz $t > $root/fuzz/build-$t.log 2>&1 || { echo "HARNESS-ERROR: fuzz build failed (see fuzz/build-$t.log)"; exit 2; }
